@@ -103,7 +103,19 @@ fn build(picks: &[P], b: &mut B, depth: usize, xf: &dyn Fn(BBox) -> BBox) -> Vec
                 out.push(e);
             }
             6 => out.push(XEl::new("ellipse").a("id", id).a("cxy", format!("{} {}", num(x), num(y))).a("rxy", format!("{} {}", num(w / 2.0), num(h / 2.0)))),
-            7 => out.push(XEl::new("line").a("id", id).a("xy1", format!("{} {}", num(x), num(y))).a("xy2", format!("{} {}", num(x + p.n[4]), num(y + p.n[5])))),
+            7 => {
+                // (horizontal and vertical ones - boxes without thickness - included; they can be clipped like anything else)
+                let (dx, dy) = match p.f % 7 {
+                    1 => (p.n[4], 0.0),
+                    2 => (0.0, p.n[5]),
+                    _ => (p.n[4], p.n[5]),
+                };
+                let mut e = XEl::new("line").a("id", id).a("xy1", format!("{} {}", num(x), num(y))).a("xy2", format!("{} {}", num(x + dx), num(y + dy)));
+                if p.f % 3 == 1 && !b.clip_ids.is_empty() {
+                    e.set("clip-path", url_ref(&b.clip_ids[p.r as usize % b.clip_ids.len()], p.f / 3));
+                }
+                out.push(e);
+            }
             8 => out.push(XEl::new("polyline").a("id", id).a("points", format!("{} {} {} {} {} {}", num(x), num(y), num(x + w), num(y + p.n[5]), num(x + p.n[4]), num(y + h)))),
             9 => out.push(XEl::new("polygon").a("id", id).a("points", format!("{},{} {},{} {},{}", num(x), num(y), num(x + w), num(y), num(x + p.n[4]), num(y + h)))),
             10 | 11 => {
@@ -148,7 +160,12 @@ fn build(picks: &[P], b: &mut B, depth: usize, xf: &dyn Fn(BBox) -> BBox) -> Vec
                     0 if p.f & 0x40 != 0 && !b.use_targets.is_empty() => {
                         // a link in a chain of uses: refers to an earlier target and adds an offset of its own
                         let prev = b.use_targets[p.r as usize % b.use_targets.len()].clone();
-                        let mut u = XEl::new("use").a("id", format!("d{id}")).a("href", format!("#{prev}"));
+                        // (written with the SVG 1.1 spelling of the reference now and then)
+                        let mut u = if p.r % 3 == 1 {
+                            XEl::new("use").a("id", format!("d{id}")).a("xmlns:xlink", "http://www.w3.org/1999/xlink").a("xlink:href", format!("#{prev}"))
+                        } else {
+                            XEl::new("use").a("id", format!("d{id}")).a("href", format!("#{prev}"))
+                        };
                         if p.f & 0x80 != 0 {
                             u.set("x", num(p.n[4]));
                         }
@@ -169,7 +186,11 @@ fn build(picks: &[P], b: &mut B, depth: usize, xf: &dyn Fn(BBox) -> BBox) -> Vec
             17 => {
                 if !b.use_targets.is_empty() {
                     let t = &b.use_targets[p.r as usize % b.use_targets.len()];
-                    let mut u = XEl::new("use").a("id", id).a("href", format!("#{t}"));
+                    let mut u = if p.r % 4 == 2 {
+                        XEl::new("use").a("id", id).a("xmlns:xlink", "http://www.w3.org/1999/xlink").a("xlink:href", format!("#{t}"))
+                    } else {
+                        XEl::new("use").a("id", id).a("href", format!("#{t}"))
+                    };
                     match p.f % 3 {
                         0 => {
                             u.set("x", num(x));
@@ -469,7 +490,7 @@ impl<'a> Ctx<'a> {
             }
             "path" => path_box(e.attr("d")?)?,
             "use" => {
-                let t = self.root.find_id(e.attr("href")?.strip_prefix('#')?)?;
+                let t = self.root.find_id(e.attr("href").or(e.attr("xlink:href"))?.strip_prefix('#')?)?;
                 let tb = self.own_box_of_target(t)?;
                 tb.translate(fnum0(e, "x"), fnum0(e, "y"))
             }
